@@ -317,7 +317,12 @@ func VH06c_unsub_qlen() {
 	verif.Assert(o.SetOption(mangos.OptionSubscribe, []byte{}) == nil, lab+"/subscribe-all")
 	t := verif.Bytes("topic", 1)
 	verif.Assert(o.SetOption(mangos.OptionSubscribe, t) == nil, lab+"/subscribe-topic")
-	verif.Assert(o.SetOption(mangos.OptionUnsubscribe, t) == nil, lab+"/unsubscribe-topic")
+	// the unsubscribe (which rebuilds the queue) comes before the publications, never, or after them: the configured
+	// length must hold from the moment the object exists, not only once something has rebuilt the queue
+	when := verif.Choice("unsubscribe-when", 3)
+	if when == 0 {
+		verif.Assert(o.SetOption(mangos.OptionUnsubscribe, t) == nil, lab+"/unsubscribe-topic")
+	}
 	// overfill: q+2 publications, only the last q may remain
 	n := q + 2
 	var bodies [][]byte
@@ -326,6 +331,17 @@ func VH06c_unsub_qlen() {
 		bodies = append(bodies, b)
 		pub.Deliver(b)
 		verif.Quiesce()
+	}
+	if when == 2 {
+		var uerr error
+		ug := verif.Go("unsubscribe", func() { uerr = o.SetOption(mangos.OptionUnsubscribe, t) })
+		verif.Quiesce()
+		verif.Assert(ug.Done(), lab+"/unsubscribe-blocks-with-a-full-queue")
+		if !ug.Done() {
+			return
+		}
+		verif.Assert(uerr == nil, lab+"/unsubscribe-topic")
+		verif.Reach("unsubscribed-with-full-queue")
 	}
 	got, ok := o.GetOption(mangos.OptionReadQLen)
 	verif.Assert(ok == nil && got.(int) == q, lab+"/get-qlen")
